@@ -23,6 +23,7 @@ type rdCase struct {
 	Ind2   string `json:"indent2"` // indentation configured for the OTHER encoder (JSONIndent vs XMLIndent)
 	Pos    string `json:"pos"`
 	VSeed  int64  `json:"vseed,omitempty"`
+	Pre    string `json:"pre,omitempty"` // Content-Type already on the response when the handler renders ("-" = none)
 	Sub    int    `json:"sub,omitempty"` // 1: the handler serves a sub-request (which renders too) through the same Flame first
 }
 
@@ -104,6 +105,9 @@ func rdReplay(raw json.RawMessage, idx int, tr *traceWriter) {
 	if c.VSeed == 0 {
 		c.VSeed = int64(idx)*7907 + int64(envInt("VERIF_SEED", 1))
 	}
+	if c.Pre == "" {
+		c.Pre = []string{"-", "text/html; charset=utf-8", "application/x-custom"}[(c.VSeed/4)%3]
+	}
 	tr.emit(map[string]interface{}{"case": idx, "ev": "reset", "input": c, "nt": true})
 	rng := rand.New(rand.NewSource(c.VSeed))
 	opt := flamego.RenderOptions{Charset: c.Cs, JSONIndent: c.Indent, XMLIndent: c.Ind2}
@@ -172,7 +176,12 @@ func rdReplay(raw json.RawMessage, idx int, tr *traceWriter) {
 		}
 		doRender(r)
 	}
-	pad := func(c flamego.Context) {}
+	pad := func(fc flamego.Context) {
+		// an earlier handler of the same request chose a site-wide default type
+		if c.Pre != "-" {
+			fc.ResponseWriter().Header().Set("Content-Type", c.Pre)
+		}
+	}
 	if c.Pos == "after" {
 		f.Use(flamego.Renderer(opt), pad)
 		f.Get("/sub", func(r flamego.Render) { r.PlainText(203, "sub-request") })
